@@ -101,55 +101,58 @@ def corr(ctx):
 
     # ---- to_grid / k_new / find_grid on synthetic TABresults ------------------------------------------
     for it in range(ctx.n(60, 500)):
-        g = rand_grid(rng)
-        pts = all_points(g)
-        kind = rng.choice(["perm", "perm", "dup", "dup", "offgrid", "shifted", "missing", "int-shift"])
-        lst = list(pts)
-        if kind in ("dup", "offgrid", "shifted"):
-            lst += [rng.choice(pts) for _ in range(rng.randint(1, 4))]
-        if kind == "missing" and len(lst) > 1:
-            for _ in range(rng.randint(1, max(1, len(lst) // 3))):
-                if len(lst) > 1:
-                    lst.pop(rng.randrange(len(lst)))
-        rng.shuffle(lst)
-        kf = np.array([[p[i] / g[i] for i in range(3)] for p in lst])
-        if kind == "offgrid":      # a few points clearly off the grid (skipped with a warning)
-            for _ in range(rng.randint(1, 3)):
-                kf[rng.randrange(len(kf)), rng.randrange(3)] += rng.choice([1e-3, 0.013, -2e-4])
-        if kind == "shifted":      # within the 1e-5 tolerance: still on the grid
-            for _ in range(rng.randint(1, 3)):
-                kf[rng.randrange(len(kf)), rng.randrange(3)] += rng.choice([1e-7, -1e-8, 3e-9])
-        if kind == "int-shift":    # outside [0,1): TABresult stores kpoints % 1
-            kf += np.array([[rng.choice([0, 1, -1, 2]) for _ in range(3)] for _ in lst])
-        data = np.array([rng.randint(-2 ** 10, 2 ** 10) / 8 for _ in lst]).reshape(-1, 1)
-        with warnings.catch_warnings():
-            warnings.simplefilter("ignore")
-            T = mk_tab(W, kf, {"Energy": data})
-            kstored = T.kpoints           # what to_grid sees
-            ktok = ratss(kstored)
-            try:
+        with ctx.attempt("correspondence section: building / operating on real objects", dict(iteration=it)):
+            g = rand_grid(rng)
+            pts = all_points(g)
+            kind = rng.choice(["perm", "perm", "dup", "dup", "offgrid", "shifted", "missing", "int-shift"])
+            lst = list(pts)
+            if kind in ("dup", "offgrid", "shifted"):
+                lst += [rng.choice(pts) for _ in range(rng.randint(1, 4))]
+            if kind == "missing" and len(lst) > 1:
+                for _ in range(rng.randint(1, max(1, len(lst) // 3))):
+                    if len(lst) > 1:
+                        lst.pop(rng.randrange(len(lst)))
+            rng.shuffle(lst)
+            kf = np.array([[p[i] / g[i] for i in range(3)] for p in lst])
+            if kind == "offgrid":      # a few points clearly off the grid (skipped with a warning)
+                for _ in range(rng.randint(1, 3)):
+                    kf[rng.randrange(len(kf)), rng.randrange(3)] += rng.choice([1e-3, 0.013, -2e-4])
+            if kind == "shifted":      # within the 1e-5 tolerance: still on the grid
+                for _ in range(rng.randint(1, 3)):
+                    kf[rng.randrange(len(kf)), rng.randrange(3)] += rng.choice([1e-7, -1e-8, 3e-9])
+            if kind == "int-shift":    # outside [0,1): TABresult stores kpoints % 1
+                kf += np.array([[rng.choice([0, 1, -1, 2]) for _ in range(3)] for _ in lst])
+            data = np.array([rng.randint(-2 ** 10, 2 ** 10) / 8 for _ in lst]).reshape(-1, 1)
+            with warnings.catch_warnings():
+                warnings.simplefilter("ignore")
+                T = mk_tab(W, kf, {"Energy": data})
+                kstored = T.kpoints           # what to_grid sees
+                ktok = ratss(kstored)
+                try:
+                    with quiet():
+                        R = T.to_grid(np.array(g))
+                    got = rats(R.results["Energy"].data.reshape(-1))
+                    knew = ";".join(ints(np.rint(k * np.array(g)).astype(int)) for k in R.kpoints)
+                except ZeroDivisionError:
+                    got, knew = "E", None
+                except Exception as e:  # noqa  (reported as a model/code difference, with the exception name)
+                    got, knew = f"raised:{type(e).__name__}", None
+            emit(f"togrid {n3(g)} {ktok} {rats(data.reshape(-1))}", got, f"to_grid[{kind}]", tol=1e-12)
+            if knew is not None:
+                emit(f"knew {n3(g)}", knew, "k_new")
+            # find_grid: only when 1/maxgap is far from a half-integer (float rounding must not decide np.round)
+            ok = True
+            fg = []
+            for i in range(3):
+                c = sorted([Fr(p[i], g[i]) for p in lst] + [Fr(1)])
+                gap = max(b - a for a, b in zip(c, c[1:]))
+                q = 1 / gap
+                if abs(q - round(q)) > Fr(1, 10):
+                    ok = False
+            if ok and kind in ("perm", "dup", "missing", "int-shift"):
                 with quiet():
-                    R = T.to_grid(np.array(g))
-                got = rats(R.results["Energy"].data.reshape(-1))
-                knew = ";".join(ints(np.rint(k * np.array(g)).astype(int)) for k in R.kpoints)
-            except ZeroDivisionError:
-                got, knew = "E", None
-        emit(f"togrid {n3(g)} {ktok} {rats(data.reshape(-1))}", got, f"to_grid[{kind}]", tol=1e-12)
-        if knew is not None:
-            emit(f"knew {n3(g)}", knew, "k_new")
-        # find_grid: only when 1/maxgap is far from a half-integer (float rounding must not decide np.round)
-        ok = True
-        fg = []
-        for i in range(3):
-            c = sorted([Fr(p[i], g[i]) for p in lst] + [Fr(1)])
-            gap = max(b - a for a, b in zip(c, c[1:]))
-            q = 1 / gap
-            if abs(q - round(q)) > Fr(1, 10):
-                ok = False
-        if ok and kind in ("perm", "dup", "missing", "int-shift"):
-            with quiet():
-                fg = T.find_grid
-            emit(f"findgrid {ktok}", ints(fg), f"find_grid[{'complete' if kind != 'missing' else 'incomplete'}]")
+                    fg = T.find_grid
+                emit(f"findgrid {ktok}", ints(fg), f"find_grid[{'complete' if kind != 'missing' else 'incomplete'}]")
 
     for q in [Fr(5, 2), Fr(-5, 2), Fr(7, 2), Fr(1, 2), Fr(-1, 2), Fr(3, 2), Fr(9, 4), Fr(-9, 4), Fr(11, 4), Fr(0), Fr(7), Fr(-3)]:
         emit(f"rint {q.numerator}/{q.denominator}", str(int(np.rint(float(q)))), "np.rint")
@@ -162,22 +165,26 @@ def corr(ctx):
         system = rand_system(rs, num_wann=2, nR=4, matrices=("Ham",))
         dk_class = get_data_k_class_from_system(system)
     for it in range(ctx.n(8, 40)):
-        g = rand_grid(rng)
-        div, fft = rng.choice(factorisations(g))
-        with quiet():
-            grid = wb.Grid(system, NKdiv=list(div), NKFFT=list(fft), use_symmetry=False)
-            K_list = grid.get_K_list(use_symmetry=False)
-            kall = []
-            for Kp in K_list:
-                dK = dk_class(system, dK=Kp.Kp_fullBZ, grid=grid, Kpoint=Kp)
-                kall.append(np.array(dK.kpoints_all))
-        kall = np.vstack(kall)
-        num = kall * np.array(g)[None, :]
-        if np.abs(num - np.rint(num)).max() > 1e-9:
-            ctx.fail("k-points of the Data_K objects are not on the dense grid", dict(div=div, fft=fft, k=kall))
-            continue
-        emit(f"tabpoints {n3(div)} {n3(fft)}", ";".join(ints(r) for r in np.rint(num).astype(int)),
-             "Grid+Data_K k-points")
+        with ctx.attempt("correspondence section: building / operating on real objects", dict(iteration=it)):
+            g = rand_grid(rng)
+            div, fft = rng.choice(factorisations(g))
+            kall = None
+            with ctx.attempt("Grid / Data_K k-points", dict(div=div, fft=fft)), quiet():
+                grid = wb.Grid(system, NKdiv=list(div), NKFFT=list(fft), use_symmetry=False)
+                K_list = grid.get_K_list(use_symmetry=False)
+                kall = []
+                for Kp in K_list:
+                    dK = dk_class(system, dK=Kp.Kp_fullBZ, grid=grid, Kpoint=Kp)
+                    kall.append(np.array(dK.kpoints_all))
+            if not kall:
+                continue
+            kall = np.vstack(kall)
+            num = kall * np.array(g)[None, :]
+            if np.abs(num - np.rint(num)).max() > 1e-9:
+                ctx.fail("k-points of the Data_K objects are not on the dense grid", dict(div=div, fft=fft, k=kall))
+                continue
+            emit(f"tabpoints {n3(div)} {n3(fft)}", ";".join(ints(r) for r in np.rint(num).astype(int)),
+                 "Grid+Data_K k-points")
 
     # ---- band groups of Tabulator.__call__ (stub data_K / Formula, REAL Tabulator) ---------------------------------
     from wannierberri.calculators.tabulate import Tabulator
@@ -203,63 +210,70 @@ def corr(ctx):
             return [{n: 0.0 for n in gr} for gr in self._g]
 
     for it in range(ctx.n(40, 300)):
-        nb = rng.randint(1, 7)
-        cuts = sorted(rng.sample(range(1, nb), rng.randint(0, nb - 1))) if nb > 1 else []
-        borders = [0] + cuts + [nb]
-        groups = list(zip(borders, borders[1:]))
-        if rng.random() < 0.4:
-            rng.shuffle(groups)      # dictionary order must not matter for disjoint groups
-        how = rng.choice(["all", "subset", "single", "reordered"])
-        ib = list(range(nb)) if how == "all" else sorted(rng.sample(range(nb), rng.randint(1, nb))) if how == "subset" \
-            else [rng.randrange(nb)] if how == "single" else rng.sample(range(nb), rng.randint(1, nb))
-        with quiet():
-            tab = Tabulator(StubFormula, ibands=None if how == "all" and rng.random() < 0.5 else ib)
-            r = tab(StubDataK([groups], nb)).data[0]
-        got = ";".join(f"{int(v) // 100},{int(v) % 100}" for v in r)
-        emit(f"groups {intss(groups)} {ints(ib)}", got, f"Tabulator groups[{how}]")
+        with ctx.attempt("correspondence section: building / operating on real objects", dict(iteration=it)):
+            nb = rng.randint(1, 7)
+            cuts = sorted(rng.sample(range(1, nb), rng.randint(0, nb - 1))) if nb > 1 else []
+            borders = [0] + cuts + [nb]
+            groups = list(zip(borders, borders[1:]))
+            if rng.random() < 0.4:
+                rng.shuffle(groups)      # dictionary order must not matter for disjoint groups
+            how = rng.choice(["all", "subset", "single", "reordered"])
+            ib = list(range(nb)) if how == "all" else sorted(rng.sample(range(nb), rng.randint(1, nb))) if how == "subset" \
+                else [rng.randrange(nb)] if how == "single" else rng.sample(range(nb), rng.randint(1, nb))
+            try:
+                with quiet():
+                    tab = Tabulator(StubFormula, ibands=None if how == "all" and rng.random() < 0.5 else ib)
+                    r = tab(StubDataK([groups], nb)).data[0]
+                got = ";".join(f"{int(v) // 100},{int(v) % 100}" for v in r)
+            except Exception as e:  # noqa
+                got = f"raised:{type(e).__name__}"
+            emit(f"groups {intss(groups)} {ints(ib)}", got, f"Tabulator groups[{how}]")
 
     # ---- components ------------------------------------------------------------------------------------------
     gc = W["get_component"]
     for it in range(ctx.n(160, 800)):
-        ndim = rng.choice([0, 1, 1, 2, 2, 3])
-        lead = [rng.choice([1, 2, 3]), rng.choice([1, 2])]
-        data = np.array([float(rng.randint(-9, 9)) for _ in range(int(np.prod(lead)) * 3 ** ndim)]).reshape(lead + [3] * ndim)
-        kind = rng.choice(["word", "word", "tuple", "tuple", "trace", "norm", "sq", "none", "badword", "upper"])
-        if kind in ("word", "upper"):
-            L = max(ndim, 1) if rng.random() < 0.85 else rng.choice([1, 2, 3, 4])
-            w = "".join(rng.choice("xyz") for _ in range(L))
-            if 1 < ndim and L != ndim:
-                continue     # partial word: sub-tensor with the tensor axes in front; too long a word: its extra
-                #              letters index the k / band axes (see longword_probe) - neither is modelled
-            spec, tok = (w.upper() if kind == "upper" else w), "s:" + w
-        elif kind == "tuple":
-            L = rng.randint(0, ndim)
-            t = tuple(rng.randrange(3) for _ in range(L))
-            spec, tok = t, "t:" + ints(t)
-        elif kind == "badword":
-            spec, tok = rng.choice(["trace", "norm", "sq"]), None
-            tok = spec
-        elif kind == "none":
-            spec, tok = None, "none"
-        else:
-            spec, tok = kind, kind
-        try:
-            with quiet():
-                out = gc(data, ndim, spec)
-            out = np.asarray(out)
-            if tok in ("norm", "sq"):
-                exp = "sq " + rats(np.rint(out ** 2 if tok == "norm" else out).reshape(-1))
-                if np.abs((out ** 2 if tok == "norm" else out) - np.rint(out ** 2 if tok == "norm" else out)).max() > 1e-9:
-                    ctx.fail("norm/sq of an integer vector is not the root of / the integer sum of squares", dict(data=data))
+        with ctx.attempt("correspondence section: building / operating on real objects", dict(iteration=it)):
+            ndim = rng.choice([0, 1, 1, 2, 2, 3])
+            lead = [rng.choice([1, 2, 3]), rng.choice([1, 2])]
+            data = np.array([float(rng.randint(-9, 9)) for _ in range(int(np.prod(lead)) * 3 ** ndim)]).reshape(lead + [3] * ndim)
+            kind = rng.choice(["word", "word", "tuple", "tuple", "trace", "norm", "sq", "none", "badword", "upper"])
+            if kind in ("word", "upper"):
+                L = max(ndim, 1) if rng.random() < 0.85 else rng.choice([1, 2, 3, 4])
+                w = "".join(rng.choice("xyz") for _ in range(L))
+                if 1 < ndim and L != ndim:
+                    continue     # partial word: sub-tensor with the tensor axes in front; too long a word: its extra
+                    #              letters index the k / band axes (see longword_probe) - neither is modelled
+                spec, tok = (w.upper() if kind == "upper" else w), "s:" + w
+            elif kind == "tuple":
+                L = rng.randint(0, ndim)
+                t = tuple(rng.randrange(3) for _ in range(L))
+                spec, tok = t, "t:" + ints(t)
+            elif kind == "badword":
+                spec, tok = rng.choice(["trace", "norm", "sq"]), None
+                tok = spec
+            elif kind == "none":
+                spec, tok = None, "none"
             else:
-                exp = rats(out.reshape(-1))
-        except W["NoComponentError"]:
-            exp = "err:nocomponent"
-        except KeyError:
-            exp = "err:key"
-        except TypeError:
-            exp = "err:type"
-        emit(f"component {ints(lead)} {ndim} {tok} {rats(data.reshape(-1))}", exp, f"get_component[{kind},ndim={ndim}]")
+                spec, tok = kind, kind
+            try:
+                with quiet():
+                    out = gc(data, ndim, spec)
+                out = np.asarray(out)
+                if tok in ("norm", "sq"):
+                    exp = "sq " + rats(np.rint(out ** 2 if tok == "norm" else out).reshape(-1))
+                    if np.abs((out ** 2 if tok == "norm" else out) - np.rint(out ** 2 if tok == "norm" else out)).max() > 1e-9:
+                        ctx.fail("norm/sq of an integer vector is not the root of / the integer sum of squares", dict(data=data))
+                else:
+                    exp = rats(out.reshape(-1))
+            except W["NoComponentError"]:
+                exp = "err:nocomponent"
+            except KeyError:
+                exp = "err:key"
+            except TypeError:
+                exp = "err:type"
+            except Exception as e:  # noqa
+                exp = f"raised:{type(e).__name__}"
+            emit(f"component {ints(lead)} {ndim} {tok} {rats(data.reshape(-1))}", exp, f"get_component[{kind},ndim={ndim}]")
     for dim in range(0, 4):
         with quiet():
             k = W["KBandResult"](np.zeros([2, 2] + [3] * dim), transformTR=W["Transform"](), transformInv=W["Transform"]())
@@ -479,13 +493,15 @@ def real_runs(ctx, W, scale):
             pts = all_points(g)
             # reference: every k-point evaluated alone
             ref = {q: [] for q in ranks}
-            with quiet():
+            with ctx.attempt("evaluate_k with tabulators at a grid point", dict(num_wann=nw, grid=g)), quiet():
                 for p in pts:
                     kk = [p[i] / g[i] for i in range(3)]
                     r = wb.evaluate_k(system, k=kk, calculators={q: type(t)(ibands=ibands) for q, t in tabs().items()},
                                       return_single_as_dict=True)
                     for q in ranks:
                         ref[q].append(r[q].data[0])
+            if any(len(v) != len(pts) for v in ref.values()):
+                continue
             ref = {q: np.array(v).reshape(tuple(g) + (len(ibands),) + (3,) * ranks[q]) for q, v in ref.items()}
             scale_q = {q: 1 + np.abs(v).max() for q, v in ref.items()}
             ref_all = ref
